@@ -188,7 +188,7 @@ htk_read_header (SF_PRIVATE *psf)
 
 	psf_binheader_readf (psf, "pE444", 0, &sample_count, &sample_period, &marker) ;
 
-	if (2 * sample_count + 12 != psf->filelength)
+	if (2 * (sf_count_t) sample_count + 12 != psf->filelength)
 		return SFE_HTK_BAD_FILE_LEN ;
 
 	if (marker != 0x20000)
